@@ -13,7 +13,8 @@ DIFFS = [b'--- a\n+++ b\n@@ -1 +1 @@\n-old\n+new\n',
          b'\x00\x01\xff\xfe binary', b'#...diff: length=5\n', b'x\r\ny\r\n',
          b'Binary files differ\n']
 ENCODINGS = [None, 'utf-8', 'utf-16', 'utf-16-le', 'utf-32-be', 'latin-1',
-             'utf-8-sig', 'UTF-16', 'utf_32']
+             'utf-8-sig', 'UTF-16', 'utf_32', 'utf16', 'U16', 'U32', 'utf8',
+             'cp1252', 'L1']
 
 
 def encodable(text, enc):
